@@ -6,3 +6,14 @@ package load
 // has no public inverse; the C02 harness restores the default after a run that
 // exercised a disabled shedder).
 func VerifC02SetEnabled(on bool) { enabled.Set(on) }
+
+// VerifC02SetLogEnabled sets the package-wide "shedding statistics are logged"
+// switch (DisableLog() has no public inverse).
+func VerifC02SetLogEnabled(on bool) { logEnabled.Set(on) }
+
+// verifC02DefaultChecker is go-zero's own CPU predicate (whatever the source says),
+// kept so that a run can put it back after VerifSetOverloadChecker replaced it.
+var verifC02DefaultChecker = systemOverloadChecker
+
+// VerifC02RestoreOverloadChecker puts go-zero's own CPU predicate back in place.
+func VerifC02RestoreOverloadChecker() { systemOverloadChecker = verifC02DefaultChecker }
